@@ -26,7 +26,7 @@ def write_cfg(name, exps, maxclock, maxcmds):
 def check(rep, tier, prop):
     if tier == "quick":
         cfg = write_cfg("_gen_Store_%s.cfg" % prop, [1], 3, 4)
-        res = C.run_tlc("Store.tla", cfg=cfg, timeout=300)
+        res = C.run_tlc("Store.tla", cfg=cfg, timeout=1200)
     else:
         cfg = write_cfg("_gen_Store_%s.cfg" % prop, [1, 2], 3, 4)
         res = C.run_tlc("Store.tla", cfg=cfg, timeout=3000)
